@@ -159,8 +159,10 @@ def run_history(kind, rng, nops, fail_at, out, script=None):
                 will_fail = fail_at is not None and spy.mut_calls + 1 == fail_at
                 mops.append('fault' if will_fail else 'del %s' % proto.enc_str(op[1]))
                 human.append('delete %s' % op[1])
-                ec.delete(op[1])
+                r = ec.delete(op[1])
                 o = 'done'
+                if not (isinstance(r, tuple) and r[0] == 'backend-says'):
+                    problems.append('delete returned %r, not the backend\'s value' % (r,))
             elif op[0] == 'get':
                 mops.append('get %s' % proto.enc_str(op[1]))
                 human.append('get %s' % op[1])
